@@ -28,7 +28,8 @@ RULE = (
     "tree's engine: (i) if the same call without a preferred engine succeeds the preferred call must not raise "
     "ColumnError and may raise EngineError only with require_preferred_engine and no transfer; (ii) equal columns; (iii) "
     "both trees are processed by the real Processor and executed, each compared with the reference and with each "
-    "other; (iv) engine placement by per-engine operation counts; non-trivial = backtracking changed the tree upstream "
+    "other, and the call is repeated on the already processed base tree (transfers holding payloads); (iv) engine "
+    "placement by per-engine operation counts; non-trivial = backtracking changed the tree upstream "
     "of the root; distinct = distinct (base tree, call) digests"
 )
 
@@ -224,6 +225,24 @@ class C03(Check):
                 order_only=canon_bag(got) == canon_bag(tr.val.rows),
             )
             return False
+        # history variant: the same call issued on the *processed* base tree (its transfers hold payloads)
+        if any(isinstance(n, Transfer) for n in walk.spine_walk(parent)):
+            try:
+                processed = RealProcessor(ctx).process(parent)
+                rel_p = ctx.apply(processed, tr.op)
+                got_p = evaluate(ctx, rel_p)
+            except Exception as e:  # noqa: BLE001
+                tr.violation("processed-base-raised", f"call on the processed base tree: {type(e).__name__}: {str(e)[:200]}")
+                return False
+            tr.count("processed_base_calls")
+            strength, ok, detail = compare(tr.val, got_p)
+            if not ok:
+                tr.violation(
+                    "rows-on-processed-base",
+                    f"call issued on the already processed base tree: {detail} ({strength}): expected {list(tr.val.rows)[:6]} got {got_p[:6]}; result={rel_p}",
+                    order_only=canon_bag(got_p) == canon_bag(tr.val.rows),
+                )
+                return False
         if plain_rel is not None and not tr.val.amb:
             try:
                 got_plain = evaluate(ctx, plain_rel)
